@@ -126,6 +126,8 @@ func SuccessSeqs(f *ssa.Function, o SeqOpts) (seqs [][]string, ok bool) {
 		count map[*ssa.BasicBlock]int
 		depth int
 		stack []*ssa.Function
+		// inLoop: the call this frame was entered through lies on a cycle of its caller
+		inLoop bool
 		// ret continues the caller after an inlined callee returned
 		ret func(x *ssa.Return, acc []string)
 	}
@@ -196,25 +198,44 @@ func SuccessSeqs(f *ssa.Function, o SeqOpts) (seqs [][]string, ok bool) {
 						defer restoreArgs()
 						undoParams := bind(pm)
 						idx := i
-						sub := &frame{fn: h, count: map[*ssa.BasicBlock]int{}, depth: fr.depth + 1, stack: append(append([]*ssa.Function{}, fr.stack...), fr.fn)}
+						sub := &frame{fn: h, count: map[*ssa.BasicBlock]int{}, depth: fr.depth + 1, stack: append(append([]*ssa.Function{}, fr.stack...), fr.fn), inLoop: fr.inLoop || cycOf(fr.fn)[b]}
 						sub.ret = func(x *ssa.Return, acc2 []string) {
 							var rs []string
+							var rvals []ssa.Value
 							for _, r := range x.Results {
 								rs = append(rs, Sym(SpilledResult(x, r)))
+								rvals = append(rvals, SpilledResult(x, r))
 							}
 							undoParams()
 							rm := map[ssa.Value]string{}
+							rv := map[ssa.Value]ssa.Value{}
 							if len(rs) == 1 {
 								rm[call] = rs[0]
+								rv[call] = rvals[0]
 							} else if refs := call.Referrers(); refs != nil {
 								for _, r := range *refs {
 									if ex, isEx := r.(*ssa.Extract); isEx && ex.Index < len(rs) {
 										rm[ex] = rs[ex.Index]
+										rv[ex] = rvals[ex.Index]
 									}
 								}
 							}
 							undoRes := bind(rm)
+							oldRV := map[ssa.Value]ssa.Value{}
+							for k, v := range rv {
+								if cur, has := boundRet[k]; has {
+									oldRV[k] = cur
+								}
+								boundRet[k] = v
+							}
 							walk(fr, b, idx+1, acc2)
+							for k := range rv {
+								if cur, has := oldRV[k]; has {
+									boundRet[k] = cur
+								} else {
+									delete(boundRet, k)
+								}
+							}
 							undoRes()
 							undoParams = bind(pm)
 						}
@@ -231,7 +252,7 @@ func SuccessSeqs(f *ssa.Function, o SeqOpts) (seqs [][]string, ok bool) {
 				fr.ret(ret, acc)
 				return
 			}
-			acc = append(acc, o.Classify(in, cycOf(fr.fn)[b])...)
+			acc = append(acc, o.Classify(in, fr.inLoop || cycOf(fr.fn)[b])...)
 			switch x := in.(type) {
 			case *ssa.Return:
 				if !o.FollowErr && ReturnsNonNilError(x) {
@@ -338,8 +359,15 @@ func boundError(ifi *ssa.If) (bool, string) {
 	if strings.HasPrefix(s, "$") || strings.Contains(s, "#") {
 		return false, "" // the callee passed on somebody else's error: not decided here
 	}
+	if rv, has := boundRet[v]; has && !DefinitelyNonNilError(rv, 2) {
+		return false, "" // the callee returned the result of another call: not decided here
+	}
 	return true, s
 }
+
+// boundRet: while a callee is explored in place, the values it returned for
+// the call's results (managed by SuccessSeqs).
+var boundRet = map[ssa.Value]ssa.Value{}
 
 // SeqString renders a sequence set.
 func SeqString(seqs [][]string) string {
